@@ -122,8 +122,7 @@ def check(tree, root, optstr, observed):
         # appear in name order, grouped by kind with dirs_first / files_first
         groups = {}
         for v, (d, par, isdir) in info.items():
-            if o["cf"] and isdir:
-                continue
+            # with contents_first a directory is yielded after its contents, but still at its own place among its siblings
             groups.setdefault(par, []).append(v)
         for par, vs in groups.items():
             vs.sort(key=lambda v: pos[v])
